@@ -692,8 +692,21 @@ func (e *SpecEnv) call(x *SExpr) Val {
 		for _, key := range []string{pkgPath + "." + name} {
 			if c, ok := st.Funcs[key]; ok && c.Abstract {
 				var ts []*Term
-				for _, a := range args {
-					ts = append(ts, e.term(e.eval(a)))
+				gf := e.ex.P.Funcs[key]
+				for i, a := range args {
+					v := e.eval(a)
+					t := e.term(v)
+					// a pointer parameter takes the pointer value, as at call sites in code
+					if gf != nil && i < gf.Signature.Params().Len() {
+						if pt, isP := gf.Signature.Params().At(i).Type().Underlying().(*types.Pointer); isP {
+							if pv, ok := v.(PtrV); ok {
+								t = PtrRef(PtrSort(pv.Elem), e.loadPtr(pv))
+							} else if ps := PtrSort(pt.Elem()); t.Sort != ps && t.Sort == SortOf(pt.Elem()) {
+								t = PtrRef(ps, t)
+							}
+						}
+					}
+					ts = append(ts, t)
 				}
 				r := e.ex.abstractApp(key, ts)
 				if e.depth == 0 {
